@@ -131,7 +131,7 @@ def _prepare_attribute_parts(
         return []
 
     if isinstance(attr, str):
-        return [int(x) if x.isdigit() else x for x in attr.split(".")]
+        return [int(x) if x.isdecimal() else x for x in attr.split(".")]
 
     return [attr]
 
